@@ -35,6 +35,8 @@ def happly(H, x):
 
 def class_predicate(t, H, d):
     """None if the class of t is honest for matrix H, else a description."""
+    if not np.all(np.isfinite(H)):
+        return "non-finite matrix"
     L, tr, last = H[:d, :d], H[:d, d], H[d]
     eps = 1e-7 * max(1.0, float(np.abs(H).max()))
     if isinstance(t, Affine):
